@@ -4,7 +4,11 @@
 //! tokens); `dump_ast(src)` prints every statement the parser returns as an
 //! S-expression without spans, or the kind of the first parse error.
 
-use crate::ast::{BinaryOperator, Expression, Statement, StringPart, UnaryOperator};
+use crate::ast::{
+    BinaryOperator, DefineVariable, Expression, Statement, StringPart, TypeAnnotation,
+    TypeExpression, TypeParameterBound, UnaryOperator,
+};
+use crate::decorator::Decorator;
 use crate::parser::{ParseErrorKind, parse};
 use crate::tokenizer::{TokenKind, TokenizerErrorKind, tokenize};
 
@@ -208,22 +212,207 @@ impl Dumper<'_> {
         }
     }
 
+    fn type_expression(&mut self, t: &TypeExpression) {
+        match t {
+            TypeExpression::Unity(_) => self.out.push_str("(tunity)"),
+            TypeExpression::TypeIdentifier(_, name, args) => {
+                self.out.push_str(&format!("(tid {}", escape(name)));
+                for a in args {
+                    self.out.push(' ');
+                    self.type_annotation(a);
+                }
+                self.out.push(')');
+            }
+            TypeExpression::Multiply(_, a, b) => {
+                self.out.push_str("(tmul ");
+                self.type_expression(a);
+                self.out.push(' ');
+                self.type_expression(b);
+                self.out.push(')');
+            }
+            TypeExpression::Divide(_, a, b) => {
+                self.out.push_str("(tdiv ");
+                self.type_expression(a);
+                self.out.push(' ');
+                self.type_expression(b);
+                self.out.push(')');
+            }
+            TypeExpression::Power(_, a, _, exponent) => {
+                self.out.push_str("(tpow ");
+                self.type_expression(a);
+                self.out
+                    .push_str(&format!(" {}/{})", exponent.numer(), exponent.denom()));
+            }
+        }
+    }
+
+    fn type_annotation(&mut self, t: &TypeAnnotation) {
+        match t {
+            TypeAnnotation::TypeExpression(e) => self.type_expression(e),
+            TypeAnnotation::Bool(_) => self.out.push_str("(tbool)"),
+            TypeAnnotation::String(_) => self.out.push_str("(tstring)"),
+            TypeAnnotation::DateTime(_) => self.out.push_str("(tdatetime)"),
+            TypeAnnotation::Fn(_, params, ret) => {
+                self.out.push_str("(tfn (params");
+                for p in params {
+                    self.out.push(' ');
+                    self.type_annotation(p);
+                }
+                self.out.push_str(") ");
+                self.type_annotation(ret);
+                self.out.push(')');
+            }
+            TypeAnnotation::List(_, e) => {
+                self.out.push_str("(tlist ");
+                self.type_annotation(e);
+                self.out.push(')');
+            }
+        }
+    }
+
+    fn optional_annotation(&mut self, t: &Option<TypeAnnotation>) {
+        match t {
+            Some(t) => self.type_annotation(t),
+            None => self.out.push('_'),
+        }
+    }
+
+    fn decorators(&mut self, decorators: &[Decorator]) {
+        self.out.push_str("(decos");
+        for d in decorators {
+            self.out.push(' ');
+            match d {
+                Decorator::MetricPrefixes => self.out.push_str("(metric_prefixes)"),
+                Decorator::BinaryPrefixes => self.out.push_str("(binary_prefixes)"),
+                Decorator::Abbreviation => self.out.push_str("(abbreviation)"),
+                Decorator::Aliases(aliases) => {
+                    self.out.push_str("(aliases");
+                    for (name, accepts, _) in aliases {
+                        let a = match accepts {
+                            None => "_",
+                            Some(a) => match (a.short, a.long) {
+                                (true, true) => "both",
+                                (true, false) => "short",
+                                (false, true) => "long",
+                                (false, false) => "none",
+                            },
+                        };
+                        self.out.push_str(&format!(" ({} {})", escape(name), a));
+                    }
+                    self.out.push(')');
+                }
+                Decorator::Url(u) => self.out.push_str(&format!("(url \"{}\")", escape(u))),
+                Decorator::Name(u) => self.out.push_str(&format!("(name \"{}\")", escape(u))),
+                Decorator::Description(u) => self
+                    .out
+                    .push_str(&format!("(description \"{}\")", escape(u))),
+                Decorator::Example(code, description) => {
+                    self.out.push_str(&format!("(example \"{}\"", escape(code)));
+                    match description {
+                        Some(d) => self.out.push_str(&format!(" \"{}\")", escape(d))),
+                        None => self.out.push_str(" _)"),
+                    }
+                }
+            }
+        }
+        self.out.push(')');
+    }
+
+    fn type_parameters(&mut self, tps: &[(crate::span::Span, &str, Option<TypeParameterBound>)]) {
+        self.out.push_str("(tparams");
+        for (_, name, bound) in tps {
+            self.out.push_str(&format!(
+                " ({} {})",
+                escape(name),
+                if bound.is_some() { "Dim" } else { "_" }
+            ));
+        }
+        self.out.push(')');
+    }
+
+    fn define_variable(&mut self, v: &DefineVariable) {
+        self.out
+            .push_str(&format!("(let {} ", escape(v.identifier)));
+        self.optional_annotation(&v.type_annotation);
+        self.out.push(' ');
+        self.decorators(&v.decorators);
+        self.out.push(' ');
+        self.expr(&v.expr);
+        self.out.push(')');
+    }
+
     fn statement(&mut self, s: &Statement) {
         match s {
             Statement::Expression(e) => self.expr(e),
-            Statement::DefineVariable(v)
-                if v.type_annotation.is_none() && v.decorators.is_empty() =>
-            {
+            Statement::DefineVariable(v) => self.define_variable(v),
+            Statement::DefineFunction {
+                function_name,
+                type_parameters,
+                parameters,
+                body,
+                local_variables,
+                return_type_annotation,
+                decorators,
+                ..
+            } => {
                 self.out
-                    .push_str(&format!("(let {} ", escape(v.identifier)));
-                self.expr(&v.expr);
+                    .push_str(&format!("(fn {} ", escape(function_name)));
+                self.type_parameters(type_parameters);
+                self.out.push_str(" (params");
+                for (_, name, t) in parameters {
+                    self.out.push_str(&format!(" ({} ", escape(name)));
+                    self.optional_annotation(t);
+                    self.out.push(')');
+                }
+                self.out.push_str(") ");
+                self.optional_annotation(return_type_annotation);
+                self.out.push(' ');
+                match body {
+                    Some(b) => self.expr(b),
+                    None => self.out.push('_'),
+                }
+                self.out.push_str(" (where");
+                for v in local_variables {
+                    self.out.push(' ');
+                    self.define_variable(v);
+                }
+                self.out.push_str(") ");
+                self.decorators(decorators);
                 self.out.push(')');
             }
-            Statement::DefineVariable(_) => self.out.push_str("(stmt let)"),
-            Statement::DefineFunction { .. } => self.out.push_str("(stmt fn)"),
-            Statement::DefineDimension(..) => self.out.push_str("(stmt dimension)"),
-            Statement::DefineBaseUnit(..) => self.out.push_str("(stmt unit)"),
-            Statement::DefineDerivedUnit { .. } => self.out.push_str("(stmt unit)"),
+            Statement::DefineDimension(_, name, dexprs) => {
+                self.out.push_str(&format!("(dimension {}", escape(name)));
+                for d in dexprs {
+                    self.out.push(' ');
+                    self.type_expression(d);
+                }
+                self.out.push(')');
+            }
+            Statement::DefineBaseUnit(_, name, dexpr, decorators) => {
+                self.out.push_str(&format!("(unit {} ", escape(name)));
+                match dexpr {
+                    Some(d) => self.type_expression(d),
+                    None => self.out.push('_'),
+                }
+                self.out.push_str(" _ ");
+                self.decorators(decorators);
+                self.out.push(')');
+            }
+            Statement::DefineDerivedUnit {
+                identifier,
+                expr,
+                type_annotation,
+                decorators,
+                ..
+            } => {
+                self.out.push_str(&format!("(unit {} ", escape(identifier)));
+                self.optional_annotation(type_annotation);
+                self.out.push(' ');
+                self.expr(expr);
+                self.out.push(' ');
+                self.decorators(decorators);
+                self.out.push(')');
+            }
             Statement::ProcedureCall(_, kind, args) => {
                 self.out.push('(');
                 self.out.push_str(kind.name());
@@ -233,8 +422,30 @@ impl Dumper<'_> {
                 }
                 self.out.push(')');
             }
-            Statement::ModuleImport(..) => self.out.push_str("(stmt use)"),
-            Statement::DefineStruct { .. } => self.out.push_str("(stmt struct)"),
+            Statement::ModuleImport(_, path) => {
+                self.out.push_str("(use");
+                for p in &path.0 {
+                    self.out.push_str(&format!(" {}", escape(p)));
+                }
+                self.out.push(')');
+            }
+            Statement::DefineStruct {
+                struct_name,
+                type_parameters,
+                fields,
+                ..
+            } => {
+                self.out
+                    .push_str(&format!("(struct-def {} ", escape(struct_name)));
+                self.type_parameters(type_parameters);
+                self.out.push_str(" (fields");
+                for (_, name, t) in fields {
+                    self.out.push_str(&format!(" ({} ", escape(name)));
+                    self.type_annotation(t);
+                    self.out.push(')');
+                }
+                self.out.push_str("))");
+            }
         }
     }
 }
